@@ -163,34 +163,77 @@ Proof.
 Qed.
 
 (* ---- the code's own statement order in machine arithmetic (Model: allocate_m) ---- *)
+(* every annotation key (cell, label address, c-string cell) is at most the size: true after every history of API calls
+   (Proofs/BinKeysInvariant.v: keys are validated against the size when written and relocated with it) *)
+Definition keys_le_size (a : archive) : Prop :=
+  Forall (fun k => k <= size a) (am_keys (a_text a)) /\ Forall (fun k => k <= size a) (am_keys (a_ptrs a)) /\
+  Forall (fun k => k <= size a) (am_keys (a_labels a)) /\ Forall (fun q => Forall (fun k => k <= size a) (snd q)) (a_cstrs a).
+
+Lemma add_at_ok m b x n : x + n < USIZE_MAX1 -> add_at m b x n = Ok (if b then x + n else x).
+Proof. intros H. unfold add_at. destruct b; [apply add_w_ok; exact H | reflexivity]. Qed.
+Lemma relocate_keys_add_ok {V} m mv n (mp : amap V) :
+  Forall (fun k => k + n < USIZE_MAX1) (am_keys mp) ->
+  relocate_keys_add m mv n mp = Ok (am_map_keys (fun k => if mv k then k + n else k) mp).
+Proof.
+  unfold am_keys, am_map_keys. induction mp as [|[k v] r IH]; intros H; cbn [relocate_keys_add map fst snd]; [reflexivity|].
+  cbn [map fst] in H. inversion H as [|? ? Hk Hr]; subst. rewrite add_at_ok by exact Hk. cbn [bind]. rewrite IH by exact Hr. reflexivity.
+Qed.
+Lemma relocate_list_add_ok m mv n l :
+  Forall (fun k => k + n < USIZE_MAX1) l -> relocate_list_add m mv n l = Ok (map (fun k => if mv k then k + n else k) l).
+Proof.
+  induction l as [|k r IH]; intros H; cbn [relocate_list_add map]; [reflexivity|].
+  inversion H as [|? ? Hk Hr]; subst. rewrite add_at_ok by exact Hk. cbn [bind]. rewrite IH by exact Hr. reflexivity.
+Qed.
+Lemma relocate_cstrs_add_ok m mv n c :
+  Forall (fun q : bytes * list N => Forall (fun k => k + n < USIZE_MAX1) (snd q)) c ->
+  relocate_cstrs_add m mv n c = Ok (map (fun q => (fst q, map (fun k => if mv k then k + n else k) (snd q))) c).
+Proof.
+  induction c as [|[s cells] r IH]; intros H; cbn [relocate_cstrs_add map fst snd]; [reflexivity|].
+  inversion H as [|? ? Hk Hr]; subst. cbn [snd] in Hk. rewrite relocate_list_add_ok by exact Hk. cbn [bind]. rewrite IH by exact Hr. reflexivity.
+Qed.
 Lemma adjust_pointers_add_ok m ptrs addr n ge :
+  Forall (fun k => k + n < USIZE_MAX1) (am_keys ptrs) ->
   (forall c t, In (c, t) ptrs -> moved addr ge t -> t + n < USIZE_MAX1) ->
   adjust_pointers_add m ptrs addr n ge = Ok (adjust_pointers ptrs addr n false ge).
 Proof.
-  induction ptrs as [|[c t] r IH]; intros H; cbn [adjust_pointers_add adjust_pointers map fst snd]; [reflexivity|].
-  rewrite IH by (intros c0 t0 Hin; apply (H c0 t0); right; exact Hin).
-  unfold adjust_dest. destruct (moves t addr ge) eqn:Hm; cbn [bind]; [|reflexivity].
+  unfold am_keys. induction ptrs as [|[c t] r IH]; intros Hk H; cbn [adjust_pointers_add adjust_pointers map fst snd]; [reflexivity|].
+  cbn [map fst] in Hk. inversion Hk as [|? ? Hc Hr]; subst.
+  rewrite IH by (try exact Hr; intros c0 t0 Hin; apply (H c0 t0); right; exact Hin).
+  rewrite add_at_ok by exact Hc. cbn [bind]. unfold add_at, adjust_dest, adjust_pointer.
+  destruct (moves t addr ge) eqn:Hm; cbn [bind]; [|reflexivity].
   rewrite add_w_ok; [reflexivity|]. apply (H c t); [left; reflexivity | apply moves_spec; exact Hm].
 Qed.
-(* For BOTH arithmetic profiles the step-by-step execution is the functional summary: it never panics, never
-   wraps a target, and when it does not return Ok the archive the caller holds is the one it passed in. *)
+(* For BOTH arithmetic profiles the step-by-step execution is the functional summary: it never panics, never wraps a key
+   or a target, and when it does not return Ok the archive the caller holds is the one it passed in. *)
 Theorem allocate_m_is_allocate m a addr n ge :
+  keys_le_size a ->
   allocate_m m a addr n ge =
     match allocate a addr n ge with Ok a' => (Ok tt, a') | Err e => (Err e, a) | Panic k => (Panic k, a) end.
 Proof.
-  unfold allocate_m. rewrite allocate_unfold.
+  intros (Kt & Kp & Kl & Kc). unfold allocate_m. rewrite allocate_unfold.
   destruct (allocate_checks a addr n ge) as [[]|e|k] eqn:E; try reflexivity.
-  apply allocate_checks_ok_iff in E. destruct E as (_ & _ & _ & _ & Hfit).
-  unfold allocate_apply. rewrite (adjust_pointers_add_ok m (a_ptrs a) addr n ge Hfit). reflexivity.
+  apply allocate_checks_ok_iff in E. destruct E as (_ & _ & _ & Hsz & Hfit).
+  rewrite ISIZE_MAX_val in Hsz.
+  assert (B : forall k, k <= size a -> k + n < USIZE_MAX1) by (intros k Hk; rewrite USIZE_MAX1_val; lia).
+  assert (Bt : Forall (fun k => k + n < USIZE_MAX1) (am_keys (a_text a))) by (eapply Forall_impl; [|exact Kt]; exact B).
+  assert (Bp : Forall (fun k => k + n < USIZE_MAX1) (am_keys (a_ptrs a))) by (eapply Forall_impl; [|exact Kp]; exact B).
+  assert (Bl : Forall (fun k => k + n < USIZE_MAX1) (am_keys (a_labels a))) by (eapply Forall_impl; [|exact Kl]; exact B).
+  assert (Bc : Forall (fun q : bytes * list N => Forall (fun k => k + n < USIZE_MAX1) (snd q)) (a_cstrs a)).
+  { eapply Forall_impl; [|exact Kc]. intros q Hq. eapply Forall_impl; [|exact Hq]. exact B. }
+  unfold allocate_apply.
+  rewrite (relocate_keys_add_ok m _ n (a_text a) Bt), (relocate_keys_add_ok m _ n (a_labels a) Bl). cbn [bind].
+  rewrite (adjust_pointers_add_ok m (a_ptrs a) addr n ge Bp Hfit). cbn [bind].
+  rewrite (relocate_cstrs_add_ok m _ n (a_cstrs a) Bc). reflexivity.
 Qed.
 Theorem allocate_m_failure_unchanged m a addr n ge :
-  fst (allocate_m m a addr n ge) <> Ok tt -> snd (allocate_m m a addr n ge) = a.
+  keys_le_size a -> fst (allocate_m m a addr n ge) <> Ok tt -> snd (allocate_m m a addr n ge) = a.
 Proof.
-  rewrite allocate_m_is_allocate. destruct (allocate a addr n ge); cbn [fst snd]; [intros H; exfalso; apply H; reflexivity | reflexivity | reflexivity].
+  intros K. rewrite (allocate_m_is_allocate m a addr n ge K).
+  destruct (allocate a addr n ge); cbn [fst snd]; [intros H; exfalso; apply H; reflexivity | reflexivity | reflexivity].
 Qed.
-Theorem allocate_m_never_panics m a addr n ge k : fst (allocate_m m a addr n ge) <> Panic k.
+Theorem allocate_m_never_panics m a addr n ge k : keys_le_size a -> fst (allocate_m m a addr n ge) <> Panic k.
 Proof.
-  rewrite allocate_m_is_allocate. destruct (allocate a addr n ge) as [a'|e|k'] eqn:E; cbn [fst]; try discriminate.
+  intros K. rewrite (allocate_m_is_allocate m a addr n ge K). destruct (allocate a addr n ge) as [a'|e|k'] eqn:E; cbn [fst]; try discriminate.
   exfalso. exact (allocate_never_panics _ _ _ _ _ E).
 Qed.
 (* relocated targets are usize values again *)
